@@ -323,6 +323,17 @@ func cmdCheck(args []string) int {
 			}
 			ok, outp := nativeReplay(file)
 			nReplayed++
+			if !ok && (strings.Contains(outp, "ZZVRF-PANIC") || strings.Contains(outp, "ZZVRF-FAILED")) && engineReplay(ld, o.run, v) {
+				// the native run of the real code fails too, but at a different
+				// assertion (typically a nil environment handle the native cut does
+				// not cover); the engine's concrete re-execution of the same SSA
+				// with the model values reproduces the reported assertion.
+				lines = append(lines, fmt.Sprintf("VIOLATION property=%s replay=%s", id, file))
+				lines = append(lines, fmt.Sprintf("  harness=%s params=%v assert=%s %s %s (engine-concrete replay; the native run fails differently: %s)", o.run.Fn, o.run.Params, v.AssertID, v.Pos, v.Msg, lastLines(outp, 2)))
+				nViol++
+				exit = 1
+				continue
+			}
 			if ok {
 				lines = append(lines, fmt.Sprintf("VIOLATION property=%s replay=%s", id, file))
 				lines = append(lines, fmt.Sprintf("  harness=%s params=%v assert=%s %s %s", o.run.Fn, o.run.Params, v.AssertID, v.Pos, v.Msg))
